@@ -11,9 +11,10 @@ GEN_FILES = ["Gen_isometry_counts"]
 COQ_TARGETS = ["CaseLib"]
 RULE = ("translation validation of isometry._a/_b/_k_s; contract monitor: every scipy.linalg.schur call made by the Knill scheme "
         "on structured and random isometries must return a unitary basis and a diagonal form (the orthogonal-idempotent premise "
-        "of C03_knill_product); direct evaluation (harness/props/c03_eval.py): leading columns of the operator vs the isometry for "
+        "of C03_knill_product); every _ccd run must end with the tracked matrix G V equal to the embedding times a diagonal of phases "
+        "(the premise of C03_ccd_closing) and return an operator mapping the embedding to V; direct evaluation (harness/props/c03_eval.py): leading columns of the operator vs the isometry for "
         "all schemes, all m, structured families. distinct = distinct inputs; non-trivial = n >= 2")
-ASSUMPTIONS = ["CCD column sweep and the CSD scheme are evaluated, not proved (CSD reduces to C02 in isometry mode plus the null-space extension contract)",
+ASSUMPTIONS = ["the CCD column sweep reaching embedding x phases is a monitored contract (its closing step is C03_ccd_closing); the CSD scheme is evaluated, not proved (CSD reduces to C02 in isometry mode plus the null-space extension contract)",
                "scipy.linalg.schur / null_space contracts are monitored numerically on the inputs of each run only"]
 TRUSTED = ["harness/monitors.py"]
 HEADER = ("From Coq Require Import List Bool ZArith.\nFrom QV Require Import GenLib Gen_isometry_counts CaseLib.\nImport ListNotations.\nOpen Scope Z_scope.\n")
@@ -70,9 +71,56 @@ def knill_monitor(ctx):
                         break
 
 
+def ccd_monitor(ctx):
+    """hypotheses of C03_ccd_closing on the real run: after the column sweep the tracked matrix `iso` (= G V, G the product of the
+    matrices of the emitted gates) is the embedding I_{2^n,2^m} times a diagonal of phases, and the appended DiagonalGate is
+    diag(exp(-i phases)) on the m low qubits."""
+    from qclib import isometry as I
+    from qiskit.quantum_info import Operator
+    nmax = 3 if ctx.quick else 4
+    for n in range(1, nmax + 1):
+        for m in range(0, n + 1):
+            for fam, V in structured_isometries(ctx.rng, n, m):
+                seen = {}
+
+                def factory(orig):
+                    def wrapped(iso, log_lines, log_cols):
+                        v0 = np.array(iso, copy=True)
+                        circ = orig(iso, log_lines, log_cols)
+                        seen["v0"], seen["final"], seen["circ"] = v0, np.array(iso, copy=True), circ
+                        return circ
+                    return wrapped
+                with monitors.patched(I, "_ccd", factory):
+                    try:
+                        I.decompose(V if m > 0 else V[:, 0], scheme="ccd")
+                    except Exception as ex:   # pylint: disable=broad-except
+                        ctx.note(f"decompose(ccd) raised {type(ex).__name__} on {fam} n={n} m={m} (left to the direct evaluation)")
+                        continue
+                ctx.monitor("ccd_sweep_contract")
+                ctx.count(f"monitor:ccd:{fam}", key=("ccd", n, m, fam, V.tobytes()), nontrivial=n >= 2,
+                          sample={"n": n, "m": m, "family": fam} if (n, m) == (3, 1) else None)
+                fin = seen["final"]
+                N, M = 2 ** n, 2 ** m
+                ph = np.diag(fin[:M, :M])
+                ref = np.zeros((N, M), dtype=complex)
+                ref[:M, :M] = np.diag(ph)
+                bad = None
+                if np.abs(fin - ref).max() > 1e-9 or np.abs(np.abs(ph) - 1).max() > 1e-9:
+                    bad = "after the column sweep the tracked matrix G V is not the embedding times a diagonal of phases"
+                else:
+                    # G = (circuit^-1 without the diagonal): check G V = J Phi and D^-1 J = J Phi through the returned operator
+                    W = Operator(seen["circ"]).data          # = (D G)^-1
+                    J = np.eye(N, dtype=complex)[:, :M]
+                    if np.abs(W @ J - seen["v0"]).max() > 1e-8:
+                        bad = "the returned operator does not map the embedding to the isometry although the sweep contract holds"
+                if bad:
+                    ctx.mismatch("C03 contract (ccd): " + bad, {"n": n, "m": m, "family": fam})
+
+
 def run(ctx):
     tv(ctx)
     knill_monitor(ctx)
+    ccd_monitor(ctx)
     run_eval(ctx, "C03")
 
 
